@@ -89,6 +89,7 @@ func govHeavyProfile() *Profile {
 	p.W["stake"], p.W["unstake"] = 16, 10
 	p.PAbsent = 3
 	p.GovFocus = "maxValidatorCnt"
+	p.Consensus = 50
 	return p
 }
 
@@ -102,6 +103,7 @@ func gasGovProfile() *Profile {
 	p.GasFaults = true
 	p.GovFocus = "gasPrice,minTrxGas"
 	p.W["propose"], p.W["vote"] = 14, 20
+	p.Consensus = 50
 	return p
 }
 
@@ -144,7 +146,11 @@ type GenSource struct {
 	lastStakeTo   []byte
 	lastStakeH    int64
 	lastStakeFrom *Actor
-	quiet         int // number of almost empty blocks at the start (marathon variant)
+	// the latest vote tx generated: voter, proposal, height
+	lastVoter  *Actor
+	lastVoteID []byte
+	lastVoteH  int64
+	quiet      int // number of almost empty blocks at the start (marathon variant)
 	// number of parameter changes the model had seen when injections were last generated
 	paramsChangedSeen int
 	// hooks for engines that extend the schedule
@@ -1027,7 +1033,19 @@ func (s *GenSource) genTx(w *World, b *Block) ([]byte, string) {
 					sp.from = pick(t, undecided, "undecidedVoter")
 				}
 			}
-			if pct(t, 6, "badChoice") {
+			if s.lastVoteH == h && s.lastVoter != nil && pct(t, 25, "voteAgainSameBlock") {
+				// the voter of the previous vote tx of this block votes again on the same proposal
+				if lp, open := w.Open[hx(s.lastVoteID)]; open {
+					pr, id = lp, lp.TxHash
+					sp.from = s.lastVoter
+					choice = int32(unif(t, len(pr.Options), "choiceAgain"))
+				}
+			}
+			bad := 6
+			if v, isV := pr.Voters[ak(sp.from.Addr)]; isV && v.Choice >= 0 {
+				bad = 14 // somebody who has voted already: a refused re-vote must leave the first vote alone
+			}
+			if pct(t, bad, "badChoice") {
 				choice = int32(pick(t, []int{-1, len(pr.Options), math.MaxInt32, math.MinInt32}, "badChoiceVal"))
 			}
 		} else {
@@ -1038,6 +1056,7 @@ func (s *GenSource) genTx(w *World, b *Block) ([]byte, string) {
 			}
 		}
 		sp.payload = &ctypes.TrxPayloadVoting{TxHash: id, Choice: choice}
+		s.lastVoter, s.lastVoteID, s.lastVoteH = sp.from, id, h
 		sp.note = fmt.Sprintf("vote %s on %x choice=%d", sp.from.Name, id[:4], choice)
 	case "deploy":
 		sp.typ = ctypes.TRX_CONTRACT
